@@ -581,7 +581,7 @@ func c15Cases(tier string) []c15Case {
 }
 
 func c15Run(run *ev.Run) {
-	run.Rule = "deviation-bounded grammars: (1) CheckRequest shapes x cookies x hosts x paths in 4 session pre-states, through Process and through ExtAuthZFilter.Check; (2) token-endpoint answers on the login and refresh paths: statuses x raw bodies, and objects whose members deviate from the honest default singly and in pairs (triples in thorough), incl. validly signed ID tokens with claims of unexpected type, each followed by two more requests; (3) key-source documents and a failing key lookup; (4) odd store answers (Redis hash fields missing/garbage/wrong type; spy answers nil/nil, value+error); oracle: recover() - no panic, verdict well-formed; class = distinct input class"
+	run.Rule = "deviation-bounded grammars: (1) CheckRequest shapes x cookies x hosts x paths in 4 session pre-states, through Process and through ExtAuthZFilter.Check; (2) token-endpoint answers on the login and refresh paths: statuses x raw bodies, and objects whose members deviate from the honest default singly and in pairs (triples in thorough), incl. validly signed ID tokens with claims of unexpected type, each followed by two more requests; (3) key-source documents and a failing key lookup; (4) odd store answers (Redis hash fields missing/garbage/wrong type; spy answers nil/nil, value+error); everything once with the no-op loggers and once with log_level all:debug; oracle: recover() - no panic, verdict well-formed; class = distinct input class"
 	run.Assumptions = []string{"coverage-guided mutation (fuzzing) is a different family and not claimed", "1 MiB is the largest body"}
 	cases := c15Cases(run.Tier)
 	var evals int64
@@ -599,6 +599,22 @@ func c15Run(run *ev.Run) {
 	if int(evals) != len(cases) {
 		run.Cap(fmt.Sprintf("%d of %d cases", evals, len(cases)))
 	}
+	// second pass with log_level all:debug (set up as cmd/main.go does): the code that runs only at debug level - the
+	// logging round tripper around every provider request, the formatting of logged values - sees every case too
+	world.EnableDebugLogging()
+	var evals2 int64
+	par.For(len(cases), run.Expired, func(i int) {
+		c := cases[i]
+		o := c15RunCase(c)
+		atomic.AddInt64(&evals2, 1)
+		c15Report(run, c, o, c15SigClass(c)+" log=debug")
+		run.Class(c15Class(c) + "|log=debug")
+	})
+	if int(evals2) != len(cases) {
+		run.Cap(fmt.Sprintf("debug-logging pass: %d of %d cases", evals2, len(cases)))
+	}
+	evals += evals2
+	run.Extra["cases_per_pass"] = len(cases)
 	// crash freedom under interleavings: a logout or a second check on the same session racing a check whose token
 	// request is refused / garbled / forged (all schedules at store-call and token-call granularity, bound 2)
 	var scheds int64
